@@ -3827,7 +3827,8 @@ class UDFFileEntry:
                  'log_block_recorded', 'unique_id', 'len_extended_attrs',
                  'desc_tag', 'icb_tag', 'alloc_descs', 'fi_descs', 'parent',
                  'access_time', 'mod_time', 'attr_time', 'extended_attr_icb',
-                 'impl_ident', 'extended_attrs', 'file_ident', 'inode')
+                 'impl_ident', 'extended_attrs', 'file_ident', 'inode',
+                 'more_inodes')
 
     FMT = '<16s20sLLLHBBLQQ12s12s12sL16s32sQLL'
 
@@ -3840,6 +3841,9 @@ class UDFFileEntry:
         self.hidden = False
         self.file_ident = None  # type: Optional[UDFFileIdentifierDescriptor]
         self.inode = None  # type: Optional[inode.Inode]
+        # The data of a file that is larger than one ISO9660 extent is spread
+        # over several Inodes; 'inode' is the first and these are the rest.
+        self.more_inodes = []  # type: List[inode.Inode]
         self.new_extent_loc = -1
 
     def parse(self, data, extent, parent, desc_tag):
